@@ -447,7 +447,14 @@ CaseVec(t, cseq, np, nc, table, j) ==
       runs |-> [q \in 1..Len(runs) |->
                   [vals |-> [p \in 1..np |-> Pool[Cand(fam, np, runs[q])[p]]],
                    tys |-> [p \in 1..np |-> TyPool[Cand(fam, np, runs[q])[p]]],
-                   out |-> table[runs[q]][j]]]]
+                   out |-> table[runs[q]][j],
+                   \* what the other groupings (order of alts) evaluate to under the same
+                   \* operands, where the reference evaluation tells them from t
+                   \* ("unk" otherwise): lets the harness recognise "evaluated as a
+                   \* different grouping" without judging operator semantics
+                   altouts |-> [x \in 1..(Len(cseq) - 1) |->
+                                  LET o == table[runs[q]][IF x < j THEN x ELSE x + 1] IN
+                                  IF Discr(table[runs[q]][j], o) THEN o ELSE [k |-> "unk", v |-> UnkV, env |-> <<>>]]]]]
 
 NegVec(toks) ==
   [text |-> Texts(toks),
